@@ -17,7 +17,7 @@ TECHNIQUE = ("bounded-exhaustive enumeration (flip-graph BFS = all triangulation
              "complexes on <= 6 vertices) x all configurations of the real TutteEmbedding vs a clause-by-clause oracle")
 RULE = ("one case = (triangulated disk with its vertex numbering and orientation, geometry, boundary mode, weights); "
         "disks: every triangulation of every point set P = convex k-gon + j interior lattice points (two placement rules: "
-        "nearest the centroid / inside the ears) under 4 renumberings (identity, reversed, multiplicative scramble, "
+        "nearest the centroid / inside the ears / regular-ish polygon with an inner ring) under 4 renumberings (identity, reversed, multiplicative scramble, "
         "mirrored orientation), every labelled disk of SURF(n), triangulated grids; configurations: boundary circle, square, "
         "custom strictly convex polygon in both directions x uniform weights, cotangent weights of the planar and of the "
         "paraboloid-lifted geometry where admissible x save_on_corners True/False; non-trivial = more than one triangle; "
@@ -35,8 +35,8 @@ ASSUMPTIONS = [
     "tolerances: 1e-9 relative for positions and mean-value residuals, |det| > 1e-12 for strict orientation",
 ]
 BOUNDS = {
-    "quick": "TRI(P) for all k>=3, j>=0, k+j<=7 (2 placement rules, 4 renumberings); all labelled SURF(n<=5) + the 28 classes of SURF(6); grids 3x3..4x4; zoo of non-disks",
-    "thorough": "TRI(P) for all k>=3, j>=0, k+j<=8; all 12934 labelled SURF(6) complexes; grids up to 5x5; zoo of non-disks",
+    "quick": "TRI(P) for all k>=3, j>=0, k+j<=7 (3 placement rules, 3 renumberings; 473 triangulations); Delaunay triangulations of regular k-gons (k=3..7) + 1 or 2 interior points on a coarse lattice (1228); all labelled SURF(n<=5) + the 28 classes of SURF(6); grids 3x3..4x4; fans and wheels with border 9..16; zoo of non-disks (closed, annuli, two components, two holes)",
+    "thorough": "TRI(P) for all k>=3, j>=0, k+j<=8 (3 placement rules, 4 renumberings; 1941 triangulations); Delaunay triangulations of regular k-gons + 1..3 interior lattice points (4807); all 12934 labelled SURF(6) complexes; grids up to 5x5; fans and wheels with border 9..16; zoo of non-disks",
 }
 
 SCALE = 6          # polygon of families.convex_polygon_points(k) is scaled so that it contains enough lattice points
@@ -47,7 +47,9 @@ BATCH = 12
 CATALAN = {3: 1, 4: 2, 5: 5, 6: 14, 7: 42, 8: 132}
 TOL = 1e-9
 # pinned family sizes (number of triangulations of the point sets, measured; a change means the family changed)
-PINNED_TRI = {"quick": None, "thorough": None}
+PINNED_TRI = {"quick": 473, "thorough": 1941}
+# config.sort_neighborhoods=False is outside the quantifier of the statement (see the report); set True to explore it as well
+EXPLORE_UNSORTED = False
 
 
 # ================================================================================================ TRI(P)
@@ -77,7 +79,11 @@ def point_set(k, j, variant):
         return all(F.orient2d(allp[a], allp[b], p) != 0 for a in range(len(allp)) for b in range(a + 1, len(allp)))
 
     for t in range(j):
-        if variant in ("centre", "regular"):
+        if variant == "regular":   # spread on an inner ring of radius 10 (one point: the centre)
+            rr = 0 if j == 1 else 10
+            tx, ty = round(rr * math.cos(2 * math.pi * t / j + 1.0)), round(rr * math.sin(2 * math.pi * t / j + 1.0))
+            key = lambda p: ((p[0] - tx) ** 2 + (p[1] - ty) ** 2, p)
+        elif variant == "centre":
             sx, sy = sum(xs), sum(ys)
             key = lambda p: ((k * p[0] - sx) ** 2 + (k * p[1] - sy) ** 2, p)
         else:   # inside the ear (v[e-1], v[e], v[e+1]) where possible
@@ -137,6 +143,57 @@ def _point_sets(tier):
     return out
 
 
+# ================================================================================================ DEL (cotangent-admissible inputs)
+def delaunay(pts, k):
+    """Lawson flips from the start triangulation, exact predicate (sum of the two opposite angles > pi <=> cot sum < 0)."""
+    tris = [tuple(t) for t in start_triangulation(pts, k)]
+    ip = [(x, y, 0) for x, y in pts]
+    for _ in range(10000):
+        he = {}
+        for idx, t in enumerate(tris):
+            for i in range(3):
+                he[(t[i], t[(i + 1) % 3])] = (idx, t[(i + 2) % 3])
+        for (a, b), (i1, c) in sorted(he.items()):
+            if a < b and (b, a) in he:
+                i2, d = he[(b, a)]
+                terms = []
+                for w in (c, d):
+                    e1, e2 = _sub(ip[a], ip[w]), _sub(ip[b], ip[w])
+                    cr = _cross(e1, e2)
+                    terms.append((_dot(e1, e2), _dot(cr, cr)))
+                if sign_of_cot_sum(terms) < 0:
+                    n1, n2 = (c, d, b), (d, c, a)       # as in families.tri_enum: t1 = a b c, t2 = b a d
+                    assert F.orient2d(pts[c], pts[d], pts[b]) > 0 and F.orient2d(pts[d], pts[c], pts[a]) > 0
+                    tris[i1], tris[i2] = n1, n2
+                    break
+        else:
+            return [F.rot_min(t) for t in tris]
+    raise AssertionError("Lawson flipping did not terminate")
+
+
+@functools.lru_cache(maxsize=None)
+def del_inputs(tier):
+    """(k, interior points): regular-ish k-gon + every j-subset of a coarse lattice inside it, in general position."""
+    plan = [(1, 4), (2, 8)] if tier == "quick" else [(1, 2), (2, 6), (3, 12)]
+    out = []
+    import itertools
+    for k in range(3, 8):
+        poly = _polygon(k, True)
+        for j, step in plan:
+            cand = [(x, y) for x in range(-24, 25, step) for y in range(-24, 25, step)
+                    if all(F.orient2d(poly[i], poly[(i + 1) % k], (x + 1, y)) > 0 for i in range(k))]
+            for sub in itertools.combinations(cand, j):
+                allp = poly + [(x + 1, y) for x, y in sub]      # shifted off the symmetry axes
+                if all(F.orient2d(allp[a], allp[b], allp[c]) != 0
+                       for a in range(len(allp)) for b in range(a + 1, len(allp)) for c in range(b + 1, len(allp))):
+                    out.append((k, tuple(allp[k:])))
+    return out
+
+
+def _relabels(tier):
+    return RELABELS if tier == "thorough" else tuple(r for r in RELABELS if r != "rev")
+
+
 def _perm(kind, n):
     """old label -> new label."""
     if kind in ("id", "mir"):
@@ -178,6 +235,7 @@ def _surf_inputs(tier):
 def _zoo_names(tier):
     grids = [(3, 3), (3, 4), (4, 4)] + ([(2, 5), (3, 5), (5, 5)] if tier == "thorough" else [])
     names = [f"grid:{a}:{b}:{mode}:{z}" for a, b in grids for mode in ("tri", "tri2") for z in ("flat", "bowl")]
+    names += [f"{w}:{n}" for n in range(9, 17) for w in ("fan", "wheel")]      # border lengths 9..16, every residue mod 4
     names += ["wheel+wheel", "tri+tri", "wheel+tet", "octahedron", "icosahedron", "tetrahedron_surface", "cube_quads",
               "csaszar_torus", "torus3x3", "annulus3a", "annulus4a", "annulus5a", "annulus3p", "annulus4p", "holey2"]
     return names
@@ -187,15 +245,20 @@ def tasks(tier):
     out = []
     for (k, j, variant) in _point_sets(tier):
         _, T = tri_family(k, j, variant)
-        for rl in RELABELS:
+        for rl in _relabels(tier):
             for lo in range(0, len(T), BATCH):
                 out.append({"family": "tri", "k": k, "j": j, "variant": variant, "relabel": rl,
                             "lo": lo, "hi": min(len(T), lo + BATCH)})
+    D = del_inputs(tier)
+    for lo in range(0, len(D), 25):
+        out.append({"family": "del", "tier": tier, "lo": lo, "hi": min(len(D), lo + 25)})
     S = _surf_inputs(tier)
     for lo in range(0, len(S), 40):
         out.append({"family": "surf", "meshes": S[lo:lo + 40]})
     for name in _zoo_names(tier):
         out.append({"family": "zoo", "name": name})
+    if EXPLORE_UNSORTED:
+        out += [dict(t, unsorted=True) for t in out if t["family"] in ("tri", "zoo")]
     return out
 
 
@@ -391,8 +454,8 @@ def _close2(p, q, scale=1.0):
 def judge(rep: Report, disk: Disk, mode, weights, wmap, pos, target):
     """All clauses of the statement on per-vertex positions `pos`."""
     bl = len(disk.loop)
-    bcls = f"{mode}:b%4={bl % 4}"
-    icls = f"{bcls}:{weights}:{disk.int_class()}"
+    bcls = f"{mode}:b%4={bl % 4}" + _SUFFIX[0]
+    icls = f"{mode}:b%4={bl % 4}:{weights}:{disk.int_class()}" + _SUFFIX[0]
     base = {"mesh": disk.name, "points": disk.fpts, "faces": disk.faces, "mode": mode, "weights": weights,
             "border_loop": disk.loop}
     callee = "TutteEmbedding.run"
@@ -527,8 +590,10 @@ def check_disk(rep: Report, disk: Disk, modes, geoms):
                 rep.count("filtered_cotan_" + ("zero_weight" if verdict == "zero" else verdict))
                 continue
             rep.count("cotan_admissible:" + weights)
+            if disk.interior:
+                rep.count("cotan_admissible_with_interior:" + weights)
         for mode in modes:
-            icls = f"{mode}:b%4={bl % 4}:{weights}:{disk.int_class()}"
+            icls = f"{mode}:b%4={bl % 4}:{weights}:{disk.int_class()}" + _SUFFIX[0]
             base = {"mesh": d.name, "points": d.fpts, "faces": d.faces, "mode": mode, "weights": weights}
             oV = call(_execute, d, mode, use_cotan, False)
             oC = call(_execute, d, mode, use_cotan, True)
@@ -630,7 +695,7 @@ def _is_disk(faces, n):
     return sig, (tri and sig["chi"] == 1 and sig["comps"] == 1 and sig["loops"] == 1)
 
 
-def dispatch(rep: Report, name, ipts, faces, modes, lift=None):
+def dispatch(rep: Report, name, ipts, faces, modes, lift=None, uniform=True):
     """Route a complex: disk -> full check, chi != 1 -> rejection clause, chi == 1 non-disk -> nothing promised."""
     faces = [tuple(f) for f in faces]
     n = len(ipts)
@@ -644,7 +709,7 @@ def dispatch(rep: Report, name, ipts, faces, modes, lift=None):
             rep.count("chi1_non_disk_not_judged")
         return
     d = Disk(name, ipts3, fpts, faces)
-    geoms = [("uniform", False, None, fpts), ("cotan", True, ipts3, fpts)]
+    geoms = ([("uniform", False, None, fpts)] if uniform else []) + [("cotan", True, ipts3, fpts)]
     if lift is not None:
         geoms.append(("cotan-lift", True, lift[0], lift[1]))
     check_disk(rep, d, modes, geoms)
@@ -660,6 +725,12 @@ def _zoo(name):
         zf = (lambda i, j: (i - 1) * (i - 1) + j * j) if z == "bowl" else None
         p, f = F.grid(int(a), int(b), mode, zf)
         return p, f
+    if name.startswith("fan:"):
+        k = int(name[4:])
+        return [(x, y, 0) for x, y in _polygon(k)], F.fan_triangulation(k)
+    if name.startswith("wheel:"):
+        k = int(name[6:])
+        return [(x, y, 0) for x, y in _polygon(k, True)] + [(1, 2, 0)], [(i, (i + 1) % k, k) for i in range(k)]
     if name in ("octahedron", "icosahedron", "tetrahedron_surface", "cube_quads", "csaszar_torus"):
         return getattr(F, name)()
     if name == "torus3x3":
@@ -691,8 +762,22 @@ def _zoo(name):
     raise KeyError(name)
 
 
+_SUFFIX = [""]      # appended to every input class of the task (":unsorted" when config.sort_neighborhoods is False)
+
+
 def run_task(task, rep: Report):
-    import mouette  # noqa: F401  (bound by the runner; imported here, never at module level)
+    import mouette as M     # bound by the runner; imported here, never at module level
+    old = M.config.sort_neighborhoods
+    M.config.sort_neighborhoods = not task.get("unsorted", False)
+    _SUFFIX[0] = ":unsorted" if task.get("unsorted") else ""
+    try:
+        _run_task(task, rep)
+    finally:
+        M.config.sort_neighborhoods = old
+        _SUFFIX[0] = ""
+
+
+def _run_task(task, rep: Report):
     fam = task["family"]
     if fam == "tri":
         k, j = task["k"], task["j"]
@@ -705,6 +790,18 @@ def run_task(task, rep: Report):
             lift_f = [(float(x), float(y), (x * x + y * y) / LIFT_DEN) for x, y in q]
             dispatch(rep, f"tri:{k}+{j}:{task['variant']}:{task['relabel']}#{idx}", ip, g, MODES, (lift_i, lift_f))
             rep.count("triangulations")
+    elif fam == "del":
+        D = del_inputs(task["tier"])
+        for idx in range(task["lo"], task["hi"]):
+            k, inner = D[idx]
+            pts = _polygon(k, True) + [tuple(p) for p in inner]
+            g = delaunay(pts, k)
+            ip = [(x, y, 0) for x, y in pts]
+            lift_i = [(LIFT_DEN * x, LIFT_DEN * y, x * x + y * y) for x, y in pts]
+            lift_f = [(float(x), float(y), (x * x + y * y) / LIFT_DEN) for x, y in pts]
+            # uniform weights only on every 4th input: the combinatorial types repeat
+            dispatch(rep, f"del:{k}+{len(inner)}#{idx}", ip, g, MODES, (lift_i, lift_f), uniform=(idx % 4 == 0))
+            rep.count("delaunay_inputs")
     elif fam == "surf":
         for name, n, faces in task["meshes"]:
             dispatch(rep, name, F.moment_curve(n), faces, MODES)
@@ -724,7 +821,7 @@ def run_task(task, rep: Report):
 def finish(tier, rep: Report):
     fails = []
     nmax = 7 if tier == "quick" else 8
-    need = [f"border_len:{b}" for b in range(3, nmax + 1)] + ["interior:int0", "interior:int1", "interior:int2+", "chords",
+    need = [f"border_len:{b}" for b in list(range(3, nmax + 1)) + list(range(9, 17))] + ["interior:int0", "interior:int1", "interior:int2+", "chords",
             "interior_valence3", "corner_vertex_agree", "nondisk:closed", "nondisk:bordered", "nondisk:multi"]
     need += [f"embedded:{m}:{w}" for m in ("circle", "custom", "customrev") for w in ("uniform", "cotan", "cotan-lift")]
     need += ["embedded:square:uniform"]
@@ -739,13 +836,15 @@ def finish(tier, rep: Report):
         fails.append("no disk was ever embedded")
     # family sizes: Catalan self-check for j = 0 (asserted in tri_family) and the pinned totals
     total = rep.counters.get("triangulations", 0)
-    want = sum(len(tri_family(k, j, v)[1]) for (k, j, v) in _point_sets(tier)) * len(RELABELS)
+    nrl = len(_relabels(tier)) * (2 if EXPLORE_UNSORTED else 1)
+    want = sum(len(tri_family(k, j, v)[1]) for (k, j, v) in _point_sets(tier)) * nrl
     if total != want:
         fails.append(f"triangulations executed {total} != enumerated {want}")
-    if PINNED_TRI.get(tier) is not None and want != PINNED_TRI[tier] * len(RELABELS):
-        fails.append(f"TRI family size {want // len(RELABELS)} differs from the pinned {PINNED_TRI[tier]}")
+    if PINNED_TRI.get(tier) is not None and want != PINNED_TRI[tier] * nrl:
+        fails.append(f"TRI family size {want // nrl} differs from the pinned {PINNED_TRI[tier]}")
     for c in ("cotan_admissible:cotan", "cotan_admissible:cotan-lift", "filtered_cotan_negative", "square_orientation_judged",
-              "non_disks", "surf_complexes", "zoo"):
+              "cotan_admissible_with_interior:cotan", "cotan_admissible_with_interior:cotan-lift",
+              "non_disks", "surf_complexes", "zoo", "delaunay_inputs"):
         if not rep.counters.get(c):
             fails.append("counter is zero: " + c)
     # the exclusion of the square clause can only trigger once a side carries three border vertices
